@@ -26,6 +26,19 @@ CHECKS = {
         design_ref='6 (C17), 3.6', engine='tlc-table'),
 }
 
+CORE_NOTE = 'Trusted: TLC + CommunityModules Json reader; CPython, greenlet, asyncio internals used by the virtual loop; the deterministic stand-ins for queue.Queue / threading / time / simple_websocket and the WSGI/ASGI caller side (harness/hub.py, vloop.py, world.py). Real code explored under cooperative (block-to-block) schedules; all interleavings of the abstract actions are explored by TLC within the stated bounds.'
+
+CHECKS.update({
+    'C03': dict(category='model_checking', text='TLC checks exactly-once / in-order / no-loss / retrievability invariants of EioServerProps on 5 bounded models (timed polling with overlapping polls, upgrade handshake with failures, websocket-only, 2 sessions, environment interleaved with internal steps) plus a negative control; TLC-simulated behaviours and seeded random scripts (polling, upgrade, websocket-only, bursts of 1..40 sends, 3 sessions + monitor) are executed on the real Server and AsyncServer under a deterministic scheduler and virtual clock, and every recorded trace (full projected state, outputs in order) is validated by TLC against EioServer with all invariants evaluated in every state. Delivery order/duplication/loss across poll, sentinel and upgrade interleavings is a state-machine property: model checking bound to the code by trace validation is the fitting level.', note=CORE_NOTE, technique='TLA+ spec EioServer/EioServerProps: TLC exhaustive (per-property alphabets) + TLC simulation replayed on real Server/AsyncServer + TLC batch trace validation of recorded executions', design_ref='6 (C03), 3.1, 4', engine='tlc-trace'),
+    'C04': dict(category='model_checking', text='TLC checks C04_MessageOnce (every accepted MESSAGE yields exactly one event, in wire order, or its background handler is pending) and event-shape invariants over POST bodies of every packet type (CLOSE / invalid at every position) and every websocket frame class, for both handler dispatch modes, with the repaired asyncio defect F7 as negative control; random bodies/frames and bodies of 0..18 packets run on both real servers and validated by TLC.', note=CORE_NOTE, technique='TLA+ spec EioServer/EioServerProps: TLC exhaustive (per-property alphabets) + TLC simulation replayed on real Server/AsyncServer + TLC batch trace validation of recorded executions', design_ref='6 (C04)', engine='tlc-trace'),
+    'C05': dict(category='model_checking', text='TLC races the end causes (client CLOSE, disconnect(), ping timeout from send and monitor, poll timeout, protocol error, websocket drop/oversize/read timeout) on polling, websocket and mid-upgrade sessions and checks event shape, single disconnect, reason = first cause, rejected sessions silent; every ordered pair of causes at the same virtual instant (before/at/after the ping deadline) plus random histories (monitor on/off, raising disconnect handler) run on both real servers and validated by TLC.', note=CORE_NOTE, technique='TLA+ spec EioServer/EioServerProps: TLC exhaustive (per-property alphabets) + TLC simulation replayed on real Server/AsyncServer + TLC batch trace validation of recorded executions', design_ref='6 (C05)', engine='tlc-trace'),
+    'C06': dict(category='model_checking', text="TLC explores every frame sequence on the upgrade socket (11 frame classes) with drops at every point, concurrent polls and sends, under the clock, for WsAvailable / transports settings, checking that 'upgrading' is set only during a live handshake, upgraded only via PING probe / PONG probe / UPGRADE or a fresh websocket, queue retrievable after failure, disallowed transports never used; negative controls re-admit the repaired defects F8/F12; all frame sequences of length <= 2 (quick) / 3 (thorough) and random upgrade histories in 5 configurations run on both real servers and validated by TLC.", note=CORE_NOTE, technique='TLA+ spec EioServer/EioServerProps: TLC exhaustive (per-property alphabets) + TLC simulation replayed on real Server/AsyncServer + TLC batch trace validation of recorded executions', design_ref='6 (C06)', engine='tlc-trace'),
+    'C07': dict(category='model_checking', text='TLC checks NoFalseTimeout, PingCadence (action properties), DetectionBound (I+3T with monitor), PollBounded and ReapedInTime on a grid of (interval, timeout) with monitor on/off, websocket with read timeout, and 2-3 sessions for the monitor sweep spacing; timing scripts placing each PONG just before / at / just after its deadline with sends and polls on either side run on both real servers (real service task, virtual clock in 1/16 s units) for several (interval, timeout, grace, monitor) settings and are validated by TLC.', note=CORE_NOTE, technique='TLA+ spec EioServer/EioServerProps: TLC exhaustive (per-property alphabets) + TLC simulation replayed on real Server/AsyncServer + TLC batch trace validation of recorded executions', design_ref='6 (C07)', engine='tlc-trace'),
+    'C15': dict(category='model_checking', text='TLC checks that no task blocked in queue.join() is stuck (C15_NoStuckJoin) over request alphabets on polling / websocket / mid-upgrade sessions; the application-disconnect models reproduce the known findings F6/F6b, identified by counterexample shape; random histories interleaved with refused requests (18 kinds), malformed bodies (11 kinds) and API calls run on both real servers through the real WSGIApp / ASGIApp; at the end the clock runs past the heartbeat bound and no request or call may remain blocked (except the listed finding), every response is checked against the WSGI / ASGI call protocol and the allowed status set, and all traces are validated by TLC.', note=CORE_NOTE, technique='TLA+ spec EioServer/EioServerProps: TLC exhaustive (per-property alphabets) + TLC simulation replayed on real Server/AsyncServer + TLC batch trace validation of recorded executions', design_ref='6 (C15)', engine='tlc-trace'),
+    'C16': dict(category='model_checking', text='TLC checks table invariants (only used ids, rejected ids never addressable, closed sessions reaped within two sweep times when monitoring, user data isolated) with 2 sessions, every close cause, API calls with live/dead ids and the monitor; long random histories (up to 6 sessions, clients vanishing mid-poll/mid-upgrade/mid-handshake, get/save_session with live/dead ids, real monitor task) run on both real servers, validated by TLC, and at the end of each monitored history the table must equal the live sessions.', note=CORE_NOTE, technique='TLA+ spec EioServer/EioServerProps: TLC exhaustive (per-property alphabets) + TLC simulation replayed on real Server/AsyncServer + TLC batch trace validation of recorded executions', design_ref='6 (C16)', engine='tlc-trace'),
+    'C18': dict(category='model_checking', text='The same environment scripts (union of the C03-C07 families incl. handshake sequences, simultaneous end causes, timing scripts, bursts) are executed on Server and AsyncServer; both traces are validated against the one specification EioServer, and the step-wise pairing of their observations (events, delivered messages with transport, liveness, transport, admission status) is validated by TLC against EioEquiv, which tolerates only silence-caused ends being detected at different moments (both must have ended the session by the end).', note=CORE_NOTE, technique='TLA+ spec EioServer/EioServerProps: TLC exhaustive (per-property alphabets) + TLC simulation replayed on real Server/AsyncServer + TLC batch trace validation of recorded executions', design_ref='4.6, 6 (C18)', engine='tlc-trace'),
+})
+
 NOT_YET = 'check not built yet at this commit (construction order in DESIGN.md section 8)'
 
 
